@@ -177,7 +177,7 @@ def Octave.Prog.size : Prog → Nat
   | .raise => 1
   | .op _ k kf => 1 + k.size + kf.size
   | .branch _ a b => 1 + a.size + b.size
-  | .saveExisted k => 1 + k.size
+  | .set _ k => 1 + k.size
 
 def drain (fuel : Nat) (s : Sys) : Sys :=
   match fuel with
